@@ -6,6 +6,7 @@ import (
 	"go/types"
 
 	"lwverif/internal/absint"
+	"lwverif/internal/tables"
 )
 
 // C15 on real band objects (engine E1): band.GetConfig is interpreted, extra channels are added through AddChannel,
@@ -109,6 +110,48 @@ func c15Setup(c *Ctx, name string, extra [][3]int64, symbolicFlags bool) (*c15St
 
 var c15Extra = [][3]int64{{867100000, 0, 5}, {867300000, 0, 5}, {868300000, 6, 6}}
 
+// c15Band: the band a rule instance runs on, with the channels it adds first (two new frequencies and one that shares
+// the frequency of a default channel at another data-rate).
+type c15Band struct {
+	name   string
+	extra  [][3]int64
+	shared int64 // frequency carried by a default channel and by an added one
+	fresh  int64 // frequency of an added channel only
+	drIn   int64 // a data-rate of the default channel on the shared frequency
+}
+
+var c15EU868 = c15Band{name: "EU868", extra: c15Extra, shared: 868300000, fresh: 867100000, drIn: 3}
+
+// c15Bands: EU868 always; in the thorough tier every band that accepts extra channels.
+func c15Bands(c *Ctx) []c15Band {
+	out := []c15Band{c15EU868}
+	if c.Tier != "thorough" {
+		return out
+	}
+	bands, err := c.Bands()
+	if err != nil {
+		return out
+	}
+	seen := map[string]bool{"EU868": true}
+	for _, cfg := range bands.Configs {
+		if cfg.Repeater || cfg.Dwell400 || seen[cfg.Canon()] {
+			continue
+		}
+		seen[cfg.Canon()] = true
+		if b, ok := tables.AsBool(cfg.Base.Fields["supportsExtraChannels"]); !ok || !b {
+			continue
+		}
+		up, err := cfg.Channels("uplinkChannels")
+		if err != nil || len(up) == 0 || len(up) > 5 {
+			continue
+		}
+		last := int64(up[len(up)-1].Freq)
+		out = append(out, c15Band{name: cfg.Canon(), shared: int64(up[0].Freq), fresh: last + 200000, drIn: int64(up[0].MinDR),
+			extra: [][3]int64{{last + 200000, 0, 5}, {last + 400000, 0, 5}, {int64(up[0].Freq), int64(up[0].MaxDR) + 1, int64(up[0].MaxDR) + 1}}})
+	}
+	return out
+}
+
 func c15IntList(in *absint.Interp, v absint.Value) ([]int64, bool) {
 	if _, isNil := v.(absint.NilVal); isNil {
 		return nil, true
@@ -140,24 +183,26 @@ func c15BookkeepingE1(c *Ctx) {
 	r.Rule("R8.index", "E1, symbolic index of 64 and 32 bits: GetUplinkChannel/GetDownlinkChannel/GetTXPowerOffset/Enable-/DisableUplinkChannelIndex never panic, fail exactly for an index outside the table, return the indexed entry, and Enable/Disable change the enabled flag of that one uplink channel only")
 	r.Rule("R8.addchannel", "E1, symbolic frequency and data-rates: AddChannel appends one custom channel (enabled iff frequency != 0) to both tables and leaves every existing entry untouched; a band without extra-channel support refuses and changes nothing")
 	r.Rule("R8.lookup", "E1, symbolic frequency / data-rate: an index returned by GetUplinkChannelIndex or GetUplinkChannelIndexForFrequencyDR designates a channel with that frequency (and default/custom class, resp. a data-rate range containing dr); GetUplinkChannelIndex fails only when no channel matches")
-	c15Partition(c)
-	for _, ib := range []int{64, 32} {
-		absint.IntBits = ib
-		func() {
-			defer func() { absint.IntBits = 64 }()
-			c15Index(c, ib)
-		}()
+	for _, b := range c15Bands(c) {
+		c15Partition(c, b)
+		for _, ib := range []int{64, 32} {
+			absint.IntBits = ib
+			func() {
+				defer func() { absint.IntBits = 64 }()
+				c15Index(c, b, ib)
+			}()
+		}
+		c15Lookup(c, b)
 	}
 	c15AddChannelE1(c)
-	c15Lookup(c)
 }
 
-func c15Partition(c *Ctx) {
+func c15Partition(c *Ctx, b c15Band) {
 	r := c.Run
 	const rule = "R8.partition"
-	st, err := c15Setup(c, "EU868", c15Extra, true)
+	st, err := c15Setup(c, b.name, b.extra, true)
 	if err != nil {
-		r.Unknown(rule, "EU868/setup", "", "band state inside the interpreter's subset", err.Error())
+		r.Unknown(rule, b.name+"/setup", "", "band state inside the interpreter's subset", err.Error())
 		return
 	}
 	in, d := st.in, st.in.D
@@ -220,22 +265,22 @@ func c15Partition(c *Ctx) {
 			bad = "panics: " + pe.Why
 			return
 		}
-		r.Unknown(rule, "EU868/partition"+tag, "", "index-set queries inside the interpreter's subset", e.Error())
+		r.Unknown(rule, b.name+"/partition"+tag, "", "index-set queries inside the interpreter's subset", e.Error())
 	})
 	if nParts > 0 {
-		r.Check(bad == "", rule, "EU868/partition", "", fmt.Sprintf("both pairs of index sets partition the %d channels for every subset of enabled channels", st.n), fmt.Sprintf("%s (%d flag assignments examined)", bad, nParts), true)
+		r.Check(bad == "", rule, b.name+"/partition", "", fmt.Sprintf("both pairs of index sets partition the %d channels for every subset of enabled channels", st.n), fmt.Sprintf("%s (%d flag assignments examined)", bad, nParts), true)
 	}
 }
 
-func c15Index(c *Ctx, ib int) {
+func c15Index(c *Ctx, b c15Band, ib int) {
 	r := c.Run
 	const rule = "R8.index"
 	type acc struct {
 		method, table string
 	}
 	for _, a := range []acc{{"GetUplinkChannel", "uplinkChannels"}, {"GetDownlinkChannel", "downlinkChannels"}} {
-		key := fmt.Sprintf("EU868/%s/int%d", a.method, ib)
-		st, err := c15Setup(c, "EU868", c15Extra, true)
+		key := fmt.Sprintf("%s/%s/int%d", b.name, a.method, ib)
+		st, err := c15Setup(c, b.name, b.extra, true)
 		if err != nil {
 			r.Unknown(rule, key, "", "band state inside the interpreter's subset", err.Error())
 			continue
@@ -271,8 +316,8 @@ func c15Index(c *Ctx, ib int) {
 	}
 	// GetTXPowerOffset
 	{
-		key := fmt.Sprintf("EU868/GetTXPowerOffset/int%d", ib)
-		st, err := c15Setup(c, "EU868", nil, false)
+		key := fmt.Sprintf("%s/GetTXPowerOffset/int%d", b.name, ib)
+		st, err := c15Setup(c, b.name, nil, false)
 		if err != nil {
 			r.Unknown(rule, key, "", "band state inside the interpreter's subset", err.Error())
 		} else {
@@ -297,8 +342,8 @@ func c15Index(c *Ctx, ib int) {
 		method string
 		val    bool
 	}{{"EnableUplinkChannelIndex", true}, {"DisableUplinkChannelIndex", false}} {
-		key := fmt.Sprintf("EU868/%s/int%d", m.method, ib)
-		st, err := c15Setup(c, "EU868", c15Extra, true)
+		key := fmt.Sprintf("%s/%s/int%d", b.name, m.method, ib)
+		st, err := c15Setup(c, b.name, b.extra, true)
 		if err != nil {
 			r.Unknown(rule, key, "", "band state inside the interpreter's subset", err.Error())
 			continue
@@ -460,13 +505,13 @@ func c15AddChannelE1(c *Ctx) {
 	}
 }
 
-func c15Lookup(c *Ctx) {
+func c15Lookup(c *Ctx, b c15Band) {
 	r := c.Run
 	const rule = "R8.lookup"
 	// by frequency and class
 	{
-		key := "EU868/GetUplinkChannelIndex"
-		st, err := c15Setup(c, "EU868", c15Extra, true)
+		key := b.name + "/GetUplinkChannelIndex"
+		st, err := c15Setup(c, b.name, b.extra, true)
 		if err != nil {
 			r.Unknown(rule, key, "", "band state inside the interpreter's subset", err.Error())
 		} else {
@@ -509,8 +554,8 @@ func c15Lookup(c *Ctx) {
 	}
 	// by frequency and data-rate
 	{
-		key := "EU868/GetUplinkChannelIndexForFrequencyDR"
-		st, err := c15Setup(c, "EU868", c15Extra, true)
+		key := b.name + "/GetUplinkChannelIndexForFrequencyDR"
+		st, err := c15Setup(c, b.name, b.extra, true)
 		if err != nil {
 			r.Unknown(rule, key, "", "band state inside the interpreter's subset", err.Error())
 			return
@@ -552,7 +597,7 @@ func c15Lookup(c *Ctx) {
 				bad = "returns an index outside the table, e.g. " + d.Witness(w)
 			}
 			// the default channel at 868.3 MHz carries DR0-5 and the added one DR6: both must be found
-			for _, probe := range [][2]int64{{868300000, 3}, {868300000, 6}, {867100000, 0}} {
+			for _, probe := range [][2]int64{{b.shared, b.drIn}, {b.extra[2][0], b.extra[2][1]}, {b.fresh, 0}} {
 				pc := d.M.And(dom, d.M.And(d.Cmp(token.EQL, f, d.Const(probe[0], 32, false)), d.Cmp(token.EQL, dr, d.Const(probe[1], 8, false))))
 				if w := d.M.And(pc, ev.NonNil); w != absint.False && bad == "" {
 					bad = fmt.Sprintf("frequency %d with DR%d is not found although a channel carries it", probe[0], probe[1])
